@@ -68,7 +68,7 @@ namespace AIToolbox {
     }
 
     VoseAliasSampler::VoseAliasSampler(const ProbabilityVector & p) :
-            prob_(p), alias_(prob_.size()), sampleDistribution_(0, prob_.size())
+            prob_(p), alias_(prob_.size(), prob_.size()), sampleDistribution_(0, prob_.size())
     {
         // Here we do the Vose Alias setup in a way that avoids the creation of
         // the small and large arrays.
@@ -76,6 +76,10 @@ namespace AIToolbox {
         // In practice what we do is we keep two pointers, one for large
         // elements and one for the small ones, and we move them along the
         // array as if we had already sorted the thing.
+
+        // Entries of alias_ start at prob_.size(), which is not a valid index
+        // and marks the entries that have not been paired yet.
+        const size_t unassigned = prob_.size();
 
         const auto avg = 1.0 / prob_.size();
         auto small = 0, large = 0;
@@ -100,23 +104,23 @@ namespace AIToolbox {
                 ++large;
                 while (large < prob_.size() && prob_[large] < avg) ++large;
             } else {
+                // Former large entries which became small are already paired
+                // (their alias is set), and must not be picked up again.
                 small = smallCheckpoint + 1;
-                while (small < prob_.size() && prob_[small] >= avg) ++small;
+                while (small < prob_.size() && (prob_[small] >= avg || alias_[small] != unassigned)) ++small;
                 // Set the checkpoint again
                 smallCheckpoint = small;
             }
         }
 
-        // Now, for each entry which remained unassigned (so it is still with
-        // the 0 default in the alias vector), we set it to just reference
-        // itself. This takes care of both large and small entries which have
-        // been left with no pairings.
-        auto x = std::min(large, small);
-        while (x < prob_.size()) {
-            prob_[x] = 1.0;
-            alias_[x] = x;
-            ++x;
-            while (x < prob_.size() && alias_[x] != 0) ++x;
+        // Now, for each entry which remained unassigned, we set it to just
+        // reference itself. This takes care of both large and small entries
+        // which have been left with no pairings.
+        for (size_t x = 0; x < unassigned; ++x) {
+            if (alias_[x] == unassigned) {
+                prob_[x] = 1.0;
+                alias_[x] = x;
+            }
         }
 
         // Here we scale up the vector so that each entry can be correctly seen
